@@ -220,9 +220,9 @@ def eval_cases(files):
             errs.append((f, "cannot parse coqc output: " + o[-1000:]))
             continue
         body = m.group(1)
-        for t in re.finditer(r"\((\d+),\s*(\d+),\s*(\d+)\)", body):
+        for t in re.finditer(r"\(\s*(\d+),\s*(\d+),\s*(\d+)\s*\)", body):
             res.append((f, int(t.group(1)), int(t.group(2)), int(t.group(3))))
-        if body.strip() not in ("[]", "nil") and not re.search(r"\(\d+", body):
+        if body.strip() not in ("[]", "nil") and not re.search(r"\(\s*\d+", body):
             errs.append((f, "unexpected R: " + body[:500]))
     for f in files:
         for ext in (".vo", ".vok", ".vos", ".glob"):
